@@ -544,12 +544,11 @@ func (x *Exec) scopeVars(st *State, fr *Frame) map[string]Val {
 func (x *Exec) loopSpec(fn *ssa.Function, li *loopInfo) *LoopSpec {
 	fs := x.prog.spec.Funcs[x.prog.relName(fn)]
 	if fs == nil || fs.Loops[li.ordinal] == nil {
-		if fn != x.fn {
-			// a loop inside an inlined, uncontracted helper: no invariant is known, everything the loop may
-			// write is forgotten at its head (sound; weak)
-			return x.inferredLoopSpec(fn, li)
-		}
-		panic(unsupported(fmt.Sprintf("loop %d of %s has no invariant", li.ordinal, x.prog.relName(fn))))
+		// a loop without a `loop N invariant` clause - inside an inlined, uncontracted helper, or one that an
+		// edit added to the function under contract: everything the loop may write is forgotten at its
+		// head except what the inferred (proved) candidates keep. Sound; weak; a loop that does not touch
+		// what the contract talks about verifies, one that does fails the clause it breaks.
+		return x.inferredLoopSpec(fn, li)
 	}
 	return fs.Loops[li.ordinal]
 }
